@@ -2,7 +2,7 @@
 // shape -- leading / repeated underscores, digits inside and between words.  For these the wire name
 // need not equal the method name; what must hold is self-consistency (C03/C05): the published list
 // is exactly the set of names the derived decoder accepts, sorted and duplicate-free.
-//   contract Nm: exec  _lead(), dbl__und(), a1b2(), x_1(), r2d2_x9()
+//   contract Nm: exec  _lead(), dbl__und(), a1b2(), x_1(), r2d2_x9(), a_b(), swap_a_b()
 //                query q__(), k9()
 
 #![allow(non_snake_case)]
@@ -46,6 +46,17 @@ pub mod nm {
 
         #[sv::msg(exec)]
         pub fn r2d2_x9(&self, _ctx: ExecCtx) -> StdResult<Response> {
+            Ok(Response::new())
+        }
+
+        // consecutive one-letter words: UpperCamel `AB`, `SwapAB`
+        #[sv::msg(exec)]
+        pub fn a_b(&self, _ctx: ExecCtx) -> StdResult<Response> {
+            Ok(Response::new())
+        }
+
+        #[sv::msg(exec)]
+        pub fn swap_a_b(&self, _ctx: ExecCtx) -> StdResult<Response> {
             Ok(Response::new())
         }
 
